@@ -49,24 +49,26 @@ def gmm_fit(ctx):
 
 def map_prior_copy(ctx):
     out = []
-    I = new_interp()
     F = G.facts()
+    # every array-valued parameter of the prior, INCLUDING array-valued variance floors (scalar floors cannot be shared)
+    for thr in ("scalar", "matrix", "perfeature"):
+        I = new_interp()
 
-    def thunk():
-        ubm = G.mk_gmm(I, "0")
-        m = I.call(I.classes["GMMMachine"], [G.Cc], {"trainer": "map", "ubm": ubm})
-        return ({"ubm": ubm}, [m])
-    effects_check(I, "C19.map.priorcopy.init", thunk, lambda o: o.endswith("0"), F, out,
-                  unchanged=lambda: {"ubm": G.mk_gmm(I, "0")})
-    I = new_interp()
+        def thunk(I=I, thr=thr):
+            ubm = G.mk_gmm(I, "0", thr=thr)
+            m = I.call(I.classes["GMMMachine"], [G.Cc], {"trainer": "map", "ubm": ubm})
+            return ({"ubm": ubm}, [m])
+        effects_check(I, "C19.map.priorcopy.init[%s]" % thr, thunk, lambda o: o.endswith("0"), F, out,
+                      unchanged=lambda I=I, thr=thr: {"ubm": G.mk_gmm(I, "0", thr=thr)})
+        I = new_interp()
 
-    def thunk2():
-        ubm = G.mk_gmm(I, "0")
-        m = G.mk_gmm(I, trainer="map", ubm=ubm, means=False, variances=False, gnorms="none")
-        I.call(K.lookup(I, "gmm.GMMMachine.initialize_gaussians"), [m], {})
-        return ({"ubm": ubm}, [m])
-    effects_check(I, "C19.map.priorcopy.initialize", thunk2, lambda o: o.endswith("0"), F, out,
-                  unchanged=lambda: {"ubm": G.mk_gmm(I, "0")})
+        def thunk2(I=I, thr=thr):
+            ubm = G.mk_gmm(I, "0", thr=thr)
+            m = G.mk_gmm(I, trainer="map", ubm=ubm, means=False, variances=False, gnorms="none")
+            I.call(K.lookup(I, "gmm.GMMMachine.initialize_gaussians"), [m], {})
+            return ({"ubm": ubm}, [m])
+        effects_check(I, "C19.map.priorcopy.initialize[%s]" % thr, thunk2, lambda o: o.endswith("0"), F, out,
+                      unchanged=lambda I=I, thr=thr: {"ubm": G.mk_gmm(I, "0", thr=thr)})
     return collapse(out, "C19.map.priorcopy", "a MAP machine's parameters are copies of the prior's arrays (constructor and initialize_gaussians)")
 
 
